@@ -639,6 +639,7 @@ class Executor:
         else:
             hook = self.w.attr_hooks.get((k, attr))
         if hook:
+            self._cur_sink = sink
             r = hook(self, st, recv)
             if hasattr(r, "__next__"):
                 yield from r
@@ -788,7 +789,8 @@ class Executor:
                 if not ok:
                     self.raise_(st2, sink, "IndexError", origin=f"index line {getattr(node, 'lineno', '?')}")
                 elif k == "seq":
-                    yield st2, unflat(base.ty.elem, [base.v[j]])
+                    ev_ = unflat(base.ty.elem, [base.v[j]])
+                    yield st2, SV(ev_.ty, ev_.v, loc=("elem", base.loc, j, base))
                 else:
                     yield st2, SV(base.ty if k == "str" else INT, z3.SubSeq(base.v, j, 1) if k == "str" else self.w.externals["bytes.ord"](z3.SubSeq(base.v, j, 1)))
             return
@@ -852,6 +854,10 @@ class Executor:
             yield from hook(self, callee, args, kwargs, st, sink, node)
             return
         if callee.ty.kind != "func":
+            hook = self.w.call_hooks.get(("call", callee.ty.kind))
+            if hook is not None:
+                yield from hook(self, callee, args, kwargs, st, sink, node)
+                return
             raise Unsupported(f"call of non-callable {callee.ty!r} line {getattr(node, 'lineno', '?')}")
         d = callee.v
         if isinstance(d, BoundBuiltinD):
@@ -1041,11 +1047,19 @@ class Executor:
                 else:
                     raise Unsupported(f"missing argument {n} for {c.target}")
         out = {}
+        self._dyn_checks = []
         for n in names:
             try:
                 out[n] = coerce(bound[n], c.params[n])
             except Unsupported as e:
                 raise Unsupported(f"argument {n} of {c.target}: {e}")
+            if bound[n].ty.kind == "dt" and c.params[n] != bound[n].ty:
+                # a dynamically typed value flows into a parameter the contract types statically:
+                # that the value really has that type is an obligation at this call
+                hook = self.w.call_hooks.get(("coerce-pre", "dt"))
+                if hook is None:
+                    raise Unsupported(f"argument {n} of {c.target}: dynamic value without a type test")
+                self._dyn_checks.append((n, hook(bound[n], c.params[n])))
         return out
 
     def apply_contract(self, c: Contract, args, kwargs, st: State, sink, node=None):
@@ -1067,6 +1081,13 @@ class Executor:
             bound = self.bind_contract_args(c, args, kwargs, st)
         a = Args(bound)
         h = HeapView(st.heap.copy(), st.held)
+        for n, f in getattr(self, "_dyn_checks", []):
+            self.oblige(st, "pre", f"{c.qualname}:argument-{n}-has-declared-type", f, note=f"call at line {getattr(node, 'lineno', '?')}")
+        self._dyn_checks = []
+        if not st.pc or self.feasible(st):
+            pass
+        else:
+            return
         for label, f in c.requires(a, h):
             self.oblige(st, "pre", f"{c.qualname}:{label}", f, note=f"call at line {getattr(node, 'lineno', '?')}")
         cases = c.cases
@@ -1138,6 +1159,12 @@ class Executor:
         """Store a new value of a value-semantic container to where it was read from."""
         if loc is None:
             raise Unsupported("mutation of a container value with no syntactic location (aliasing not modelled)")
+        if loc[0] == "elem":
+            _, seqloc, j, seq = loc
+            n = z3.Length(seq.v)
+            new = z3.Concat(z3.SubSeq(seq.v, 0, j), z3.Unit(coerce(val, seq.ty.elem).t), z3.SubSeq(seq.v, j + 1, n - j - 1))
+            self.write_back(st, seqloc, SV(seq.ty, new))
+            return
         if loc[0] == "local":
             st.locals[loc[1]] = SV(val.ty, val.v)
         elif loc[0] == "field":
@@ -1338,6 +1365,11 @@ class Executor:
                         nxt.extend(self.assign(t, x, s, sink))
                     cur = nxt
                 return cur
+            if v.ty.kind == "opt":
+                res = []
+                for s2, inner in self.unwrap(v, st, sink, "unpacking"):
+                    res.extend(self.assign(tgt, inner, s2, sink))
+                return res
             hook = self.w.call_hooks.get(("unpack", v.ty.kind))
             if hook:
                 return hook(self, tgt, v, st, sink)
@@ -1701,7 +1733,7 @@ class Executor:
         exits = []  # states leaving the loop normally (cond false / exhausted / break)
         if is_for:
             k = body.locals[kname].v
-            body.assume(k >= 0)
+            body.assume(k >= 0, k <= seq_len)  # inherent to iteration: the index runs from 0 to len
             for s_in, more in self.fork(body, k < seq_len):
                 if not more:
                     exits.append((s_in, "exhausted"))
@@ -1834,7 +1866,11 @@ class Executor:
                         rarg = res
                         if rt is not None and rt != NONE:
                             try:
-                                rarg = coerce(res, rt)
+                                if res.ty.kind == "opt" and rt.kind != "opt" and res.ty.inner == rt:
+                                    conj.append(z3.Not(res.v[0]))  # the contract promises a value, not None
+                                    rarg = res.v[1]
+                                else:
+                                    rarg = coerce(res, rt)
                             except Unsupported:
                                 conj.append(z3.BoolVal(False))
                                 rarg = None
